@@ -722,3 +722,142 @@ Proof.
   intros Hr H. destruct (real_path_confined _ _ _ Hr H) as [_ [_ H3]].
   now apply clean_segs_rooted_no_dotdot.
 Qed.
+
+(* C2: what RealPath computes, segment-wise: the name's pieces are resolved on top of the
+   base's segments (".." pops, clamped at the root for a rooted base) *)
+Definition joined_segs (base name : str) : list str :=
+  norm_aux (is_rooted base) (split_slash name) (rev (clean_segs base)).
+
+(* "no .. escapes": resolving the name on top of the base keeps the base as a prefix *)
+Definition stays_inside (base name : str) : Prop :=
+  seg_prefix (clean_segs base) (joined_segs base name).
+
+Lemma slash_free_dot : slash_free s_dot.
+Proof. intros [H|[]]; discriminate. Qed.
+
+Theorem clean_segs_join2 base name :
+  clean_segs (join2 (clean base) name) = joined_segs base name.
+Proof.
+  unfold joined_segs. pose proof (clean_segs_nf base) as Hnf. pose proof (clean_nonnil base) as Hbn.
+  rewrite join2_nonempty_l by exact Hbn. rewrite clean_segs_clean.
+  destruct name as [|c name]; cbn [is_empty].
+  - rewrite clean_segs_clean. change (split_slash []) with [[] : str].
+    rewrite norm_aux_skip by now left. cbn [norm_aux]. now rewrite rev_involutive.
+  - set (nm := c :: name). unfold clean_segs at 1.
+    rewrite is_rooted_app by exact Hbn. rewrite is_rooted_clean. unfold clean.
+    destruct (clean_segs base) as [|x l] eqn:El.
+    + destruct (is_rooted base).
+      * cbn [render join_slash app]. rewrite !split_slash_cons_slash.
+        rewrite !norm_aux_skip by now left. reflexivity.
+      * cbn [render]. rewrite split_slash_app by exact slash_free_dot.
+        rewrite norm_aux_skip by now right. reflexivity.
+    + rewrite split_render_app; [|discriminate | now apply nf_slash_free in Hnf].
+      destruct (is_rooted base).
+      * rewrite <- (app_comm_cons (x :: l)). rewrite norm_aux_skip by now left.
+        rewrite norm_aux_app_nf by exact Hnf. now rewrite app_nil_r.
+      * rewrite norm_aux_app_nf by exact Hnf. now rewrite app_nil_r.
+Qed.
+
+Lemma is_rooted_join2 base name : is_rooted (join2 (clean base) name) = is_rooted base.
+Proof.
+  pose proof (clean_nonnil base) as Hbn. rewrite join2_nonempty_l by exact Hbn.
+  rewrite is_rooted_clean. destruct (is_empty name); [apply is_rooted_clean|].
+  rewrite is_rooted_app by exact Hbn. apply is_rooted_clean.
+Qed.
+
+Lemma joined_segs_nf base name : nf (is_rooted base) (joined_segs base name).
+Proof. rewrite <- clean_segs_join2, <- (is_rooted_join2 base name). apply clean_segs_nf. Qed.
+
+Theorem join2_render base name :
+  join2 (clean base) name = render (is_rooted base) (joined_segs base name).
+Proof.
+  rewrite <- clean_segs_join2, <- (is_rooted_join2 base name).
+  apply clean_fixed_render. apply join2_clean, clean_nonnil.
+Qed.
+
+(* exact characterisation of RealPath; the side condition excludes only the base "." *)
+Theorem real_path_iff base name p :
+  (is_rooted base = false -> clean_segs base <> []) ->
+  (real_path base name = Some p <->
+   p = join2 (clean base) name /\ stays_inside base name).
+Proof.
+  intros Hrel. split.
+  - intros H. destruct (real_path_value _ _ _ H) as [E _]. split; [exact E|].
+    destruct (real_path_confined_gen _ _ _ H) as [Hs _].
+    unfold stays_inside. now rewrite <- clean_segs_join2, <- E.
+  - intros [-> Hin]. rewrite real_path_unfold. cbv zeta.
+    pose proof (seg_prefix_string_prefix (is_rooted base) (clean_segs base) (joined_segs base name)
+                  (clean_segs_nf base) (joined_segs_nf base name) Hrel Hin) as C.
+    rewrite <- join2_render in C. fold (clean base) in C. now rewrite C.
+Qed.
+
+Theorem real_path_inside base name :
+  is_rooted (clean base) = true -> stays_inside base name ->
+  real_path base name = Some (clean (join2 (clean base) name)).
+Proof.
+  intros Hr Hin. rewrite is_rooted_clean in Hr. rewrite join2_clean by apply clean_nonnil.
+  apply real_path_iff; [rewrite Hr; discriminate | auto].
+Qed.
+
+Theorem real_path_escape base name :
+  is_rooted (clean base) = true -> ~ stays_inside base name -> real_path base name = None.
+Proof.
+  intros Hr Hout. rewrite is_rooted_clean in Hr.
+  destruct (real_path base name) as [p|] eqn:E; [|reflexivity].
+  apply real_path_iff in E; [|rewrite Hr; discriminate]. now destruct E.
+Qed.
+
+(* /base2/x is not below /base : segment prefix is not string prefix *)
+Example base2_not_below_base :
+  let base := [SLASH; 98; 97; 115; 101]%N in                    (* "/base" *)
+  let name := [DOT; DOT; SLASH; 98; 97; 115; 101; 50; SLASH; 120]%N in  (* "../base2/x" *)
+  prefixb base (join2 base name) = true /\ real_path base name = None.
+Proof. vm_compute. auto. Qed.
+
+(** ** C3: an unrooted base (relative root) *)
+
+(* [real_path_confined_gen] and [real_path_iff] hold for unrooted bases too.  Two caveats: *)
+
+(* (a) a base that cleans to "." accepts only names that resolve to "." itself
+       ("./" is never a prefix of a cleaned path) *)
+Theorem real_path_dot_base base name p :
+  is_rooted base = false -> clean_segs base = [] -> real_path base name = Some p -> p = s_dot.
+Proof.
+  intros Hr Hl H. destruct (real_path_confined_gen _ _ _ H) as [_ [Hc Hrp]].
+  rewrite real_path_unfold in H. cbv zeta in H.
+  destruct (_ || _) eqn:C in H; [|discriminate]. inversion H as [E]. rewrite E in C |- *.
+  assert (Eb : clean base = s_dot) by (unfold clean; now rewrite Hr, Hl).
+  rewrite Eb in C. apply orb_true_iff in C as [C|C]; [now apply beqb_true_iff in C|].
+  exfalso. change (trim_suffix_slash s_dot ++ s_slash) with (s_dot ++ [SLASH]) in C.
+  apply prefixb_spec in C as [r Hp]. rewrite <- app_assoc in Hp. cbn [app] in Hp.
+  pose proof (clean_segs_nf p) as Hnf. pose proof (clean_fixed_render p Hc) as Ep.
+  rewrite Hrp, Hr in Hnf, Ep.
+  destruct (clean_segs p) as [|x l] eqn:El.
+  - rewrite Ep in Hp. discriminate.
+  - assert (Hs : split_slash p = x :: l).
+    { rewrite Ep at 1. apply (split_render false); [discriminate | now apply nf_slash_free in Hnf]. }
+    rewrite Hp in Hs. change (DOT :: SLASH :: r) with (s_dot ++ SLASH :: r) in Hs.
+    rewrite split_slash_app in Hs by exact slash_free_dot. inversion Hs; subst.
+    destruct Hnf as [Hf _]. inversion Hf as [|? ? [_ [Hd _]] _]. now apply Hd.
+Qed.
+
+Example real_path_dot_rejects :   (* base ".", name "a" *)
+  real_path s_dot [97%N] = None /\ real_path [] [97%N] = None.
+Proof. vm_compute. auto. Qed.
+
+(* (b) when the base itself starts with "..", segment prefix does not mean "inside":
+       base "..", name ".." gives "../.." *)
+Example real_path_dotdot_base :
+  real_path s_dotdot s_dotdot = Some [DOT; DOT; SLASH; DOT; DOT].
+Proof. reflexivity. Qed.
+
+(* for an unrooted base that does not start with "..", the result has no ".." at all *)
+Theorem real_path_unrooted_no_dotdot base name p x l :
+  is_rooted base = false -> clean_segs base = x :: l -> x <> s_dotdot ->
+  real_path base name = Some p -> ~ In s_dotdot (clean_segs p).
+Proof.
+  intros Hr Hl Hx H. destruct (real_path_confined_gen _ _ _ H) as [[r Hs] [_ Hrp]].
+  pose proof (clean_segs_nf p) as [_ Hnf]. rewrite Hrp, Hr, Hs, Hl in Hnf. cbn in Hnf.
+  destruct Hnf as [[E _]|Hnf]; [contradiction|].
+  rewrite Hs, Hl. intros Hin. rewrite Forall_forall in Hnf. now apply (Hnf _ Hin).
+Qed.
